@@ -572,7 +572,7 @@ func (d *Directory) handleModify(t TestingT) func(w *gldap.ResponseWriter, r *gl
 					// we're updating what the ptr points at, so disable lint of
 					// unused var
 					//nolint:staticcheck
-					foundAttr = gldap.NewEntryAttribute(chg.Modification.Type, chg.Modification.Vals)
+					*foundAttr = *gldap.NewEntryAttribute(chg.Modification.Type, chg.Modification.Vals)
 				}
 			}
 		}
